@@ -332,3 +332,41 @@ def battery_scalarmult(seed, which=("P.ScalarMult", "P.ScalarBaseMult", "P.VarTi
             if nm != args[0] and r["slots"].get(nm) != v:
                 return dict(what="%s modified input %s" % (op, nm), op=op, args=args, init=init)
     return None
+
+
+def battery_multiscalar_sizes(seed, sizes, which=("P.MultiScalarMult", "P.VarTimeMultiScalarMult")):
+    """multi-scalar routines with term counts far above the symbolic bound (chosen from the constants the code compares a
+    length with): distinct receiver and receiver aliased to the first / a middle / the last point; duplicate scalars"""
+    rng = random.Random(seed)
+    pts = bank(rng, 8)
+    ops, meta = [], []
+    for op in which:
+        for n in sizes:
+            ks = [rng.choice([0, 1, 2, L - 1, rng.randrange(L), rng.randrange(L)]) for _ in range(n)]
+            qs = [pts[rng.randrange(len(pts))] for _ in range(n)]
+            want = (0, 1)
+            for k_, q in zip(ks, qs):
+                want = ref.ed_add(want, ref.ed_mul(k_, q))
+            for recv in ("zero", "alias0", "aliasmid", "aliaslast"):
+                init = {}
+                for j in range(n):
+                    init["k%d" % j] = scalar_words(ks[j])
+                    init["q%d" % j] = mk_point(qs[j], rng)
+                v = {"zero": "v", "alias0": "q0", "aliasmid": "q%d" % (n * 7 // 8), "aliaslast": "q%d" % (n - 1)}[recv] if n else "v"
+                if v == "v":
+                    init["v"] = "pt:zero" if rng.random() < 0.5 else mk_point(pts[0], rng)
+                ops.append({"op": op, "args": [v, "|".join("k%d" % j for j in range(n)), "|".join("q%d" % j for j in range(n))], "init": init})
+                meta.append((op, n, recv, want))
+    res = native.run_ops("", ops)
+    for (op, n, recv, want), o, r in zip(meta, ops, res):
+        if "panic" in r:
+            return dict(what="%s with %d terms (receiver %s) panics: %s" % (op, n, recv, r["panic"]), op=op, args=o["args"], init=o["init"])
+        got = affine_of(r["slots"][o["args"][0]])
+        if got != want:
+            return dict(what="%s with %d terms (receiver %s): result %s, expected %s" % (op, n, recv, got, want), op=op, args=o["args"], init=o["init"])
+        if r.get("slices_modified"):
+            return dict(what="%s with %d terms modified a slice argument: %s" % (op, n, r["slices_modified"]), op=op, args=o["args"], init=o["init"])
+        for nm, val in o["init"].items():
+            if nm != o["args"][0] and r["slots"].get(nm) != val:
+                return dict(what="%s with %d terms modified input %s" % (op, n, nm), op=op, args=o["args"], init=o["init"])
+    return None
